@@ -136,7 +136,7 @@ impl Prop for C11 {
                             for pat in ["static mut", "UnsafeCell", "thread_local!", "Mutex<", "RwLock<", "AtomicU", "AtomicI", "AtomicBool", "OnceLock", "OnceCell", "LazyLock", "env::var", "HashMap", "HashSet"] {
                                 let n = t.matches(pat).count();
                                 if n > 0 {
-                                    hits.push(format!("{}:{pat}×{n}", p.strip_prefix("/repo/rasn-compiler/src").unwrap_or(&p).display()));
+                                    hits.push(format!("{}:{pat}×{n}", p.strip_prefix(format!("{}/rasn-compiler/src", repo_dir())).unwrap_or(&p).display()));
                                 }
                             }
                         }
@@ -144,7 +144,7 @@ impl Prop for C11 {
                 }
             }
         }
-        walk(std::path::Path::new("/repo/rasn-compiler/src"), &mut hits);
+        walk(std::path::Path::new(&format!("{}/rasn-compiler/src", repo_dir())), &mut hits);
         hits.sort();
         v.push(format!("census of process-global / hashed state in rasn-compiler/src: {}", hits.join(", ")));
         v
